@@ -135,3 +135,15 @@ PROPS['C02'] = dict(
     clauses={'exact ranks / one node per rank / requested cores, GPUs, lfs, mem': 'P',
              'colocate history respected': 'P', 'oversized per-rank request rejected': 'P',
              'ranks_per_node limit': 'not yet stated', 'resource_config.Node.find_slot': 'not yet built'})
+
+PROPS['C14'] = dict(
+    level='proof',
+    claim='pilot state progression function (functional spec), Pilot._update, PilotManager._update_pilot (unknown pilots ignored, never backward, a final state never left for a non-final one, callbacks non-decreasing and in order, gaps filled) verified for every notification; agent side: _check_lifetime / stop / _ctrl_cancel_pilots keep the termination cause (run time exceeded => timeout), and finalize maps cause to state exactly (timeout->DONE, cancel/sys.exit->CANCELED, else FAILED; finite check on the AST)',
+    note='bootstrap_0.sh reading killme.signal is shell code outside this family; the user callback loop inside Pilot._update is replaced by one ghost callback event (listed under dropped statements)',
+    assumptions=['A2', 'A4', 'A5', 'A7', 'A9', 'A11'],
+    trusted_base=['ru.dict_merge', 'AgentComponent.stop / Session.close (do not touch _final_cause)'],
+    explanation='progress function + facade update + manager replay loop + cause bookkeeping',
+    clauses={'only forward / gaps filled / unknown pilots ignored': 'P',
+             'final never left for non-final': 'P',
+             'DONE iff ran until its run time, CANCELED iff canceled, else FAILED (agent side)': 'P',
+             'bootstrap_0.sh': 'N'})
